@@ -27,6 +27,9 @@ IDP = IdPFixture([_spc(SP_DECL, 1, ["givenName"], ["mail"]), _spc(SP_NONE, 2), _
 ACS = {SP_DECL: "http://sp1.example.com/acs", SP_NONE: "http://sp2.example.com/acs", SP_RS: "http://sp3.example.com/acs",
        SP_REQ2: "http://sp4.example.com/acs"}
 
+# the same SP id with and without its entity category, in two separate metadata stores
+MD_RS = IDP.server.metadata
+MD_PLAIN = IdPFixture([_spc(SP_RS, 3)]).server.metadata
 MAILS = ["a@example.com", "b@other.org"]
 RX = r".*@example\.com$"
 _BASE = {"lifetime": {"minutes": 15}, "name_form": saml.NAME_FORMAT_URI}
@@ -82,6 +85,33 @@ def permitted(pi, sp, identity):
     return ava
 
 
+def policy_reuse(first_rs: bool, has_given: bool, has_mail: bool, pi: int):
+    """One long-lived Policy object asked twice about the same SP id while the metadata it is given
+    differs (the SP gains / loses its entity category): each answer follows the metadata of that call."""
+    from veriflib.boot import concrete
+    pi = [3, 7, 9][concrete(pi)]
+    pol = Policy(POLICIES[pi])
+    identity = {}
+    if has_given:
+        identity["givenName"] = ["Alice"]
+    if has_mail:
+        identity["mail"] = [MAILS[0]]
+    stores = [MD_RS, MD_PLAIN] if first_rs else [MD_PLAIN, MD_RS]
+    cats = [[RS], []] if first_rs else [[], [RS]]
+    ok = True
+    out = []
+    for md_, cat in zip(stores, cats):
+        CATS[SP_RS] = cat
+        try:
+            got = pol.restrict(dict((k, list(v)) for k, v in identity.items()), SP_RS, md_)
+            want = permitted(pi, SP_RS, identity)
+            ok = ok and all(k in want and all(x in want[k] for x in v) for k, v in got.items())
+            out.append((sorted(got), sorted(want)))
+        finally:
+            CATS[SP_RS] = [RS]
+    return ok, True, "%r" % (out,)
+
+
 def released_of(resp):
     """Read back attribute friendly names/names and values from the response object."""
     out = {}
@@ -96,7 +126,7 @@ def released_of(resp):
     return out
 
 
-def release(pi: int, si: int, has_given: bool, has_sn: bool, has_mail: bool, mail: int, has_secret: bool, two_mails: bool):
+def release(pi: int, si: int, has_given: bool, has_sn: bool, has_mail: bool, mail: int, has_secret: bool, two_mails: bool, attr_query: bool = False):
     Clock(1000000)
     IDP.reset()
     sp = SPS[si]
@@ -112,11 +142,18 @@ def release(pi: int, si: int, has_given: bool, has_sn: bool, has_mail: bool, mai
     exc = None
     resp = None
     try:
-        resp = IDP.server.create_authn_response(
-            dict((k, list(v)) for k, v in identity.items()), "id-req1", ACS[sp], sp,
-            name_id=saml.NameID(format=saml.NAMEID_FORMAT_TRANSIENT, text="nid-1"),
-            authn={"class_ref": "urn:oasis:names:tc:SAML:2.0:ac:classes:Password", "authn_auth": "http://idp/login"},
-            release_policy=Policy(POLICIES[pi]))
+        if attr_query:
+            # answer to an AttributeQuery: the attribute authority's policy comes from its configuration
+            IDP.server.config.setattr("aa", "policy", Policy(POLICIES[pi]))
+            resp = IDP.server.create_attribute_response(
+                dict((k, list(v)) for k, v in identity.items()), "id-req1", ACS[sp], sp,
+                name_id=saml.NameID(format=saml.NAMEID_FORMAT_TRANSIENT, text="nid-1"))
+        else:
+            resp = IDP.server.create_authn_response(
+                dict((k, list(v)) for k, v in identity.items()), "id-req1", ACS[sp], sp,
+                name_id=saml.NameID(format=saml.NAMEID_FORMAT_TRANSIENT, text="nid-1"),
+                authn={"class_ref": "urn:oasis:names:tc:SAML:2.0:ac:classes:Password", "authn_auth": "http://idp/login"},
+                release_policy=Policy(POLICIES[pi]))
     except Exception as e:
         exc = e
     if resp is None:
@@ -146,11 +183,12 @@ def release(pi: int, si: int, has_given: bool, has_sn: bool, has_mail: bool, mai
 CONDITIONS = [
     Cond(name="release", fn="release",
          params=[("pi", "int"), ("si", "int"), ("has_given", "bool"), ("has_sn", "bool"), ("has_mail", "bool"), ("mail", "int"),
-                 ("has_secret", "bool"), ("two_mails", "bool")],
+                 ("has_secret", "bool"), ("two_mails", "bool"), ("attr_query", "bool")],
          pre=["0 <= pi < %d" % len(POLICIES), "0 <= si < %d" % len(SPS), "0 <= mail <= 1"],
-         partitions={"quick": [{"pi": p, "si": s} for p in range(len(POLICIES)) for s in range(len(SPS))]},
+         partitions={"quick": [{"pi": p, "si": s, "attr_query": (p + s) % 3 == 0} for p in range(len(POLICIES)) for s in range(len(SPS))],
+                     "thorough": [{"pi": p, "si": s, "attr_query": a} for p in range(len(POLICIES)) for s in range(len(SPS)) for a in (False, True)]},
          timeout={"quick": 900, "thorough": 1800}, path_timeout=120,
-         functions=["server.Server.create_authn_response/_authn_response/setup_assertion", "assertion.Assertion.apply_policy/construct",
+         functions=["server.Server.create_authn_response/_authn_response/setup_assertion", "server.Server.create_attribute_response", "assertion.Assertion.apply_policy/construct",
                     "assertion.Policy.restrict/filter/get_entity_categories/get_attribute_restrictions/get_fail_on_missing_requested",
                     "assertion.filter_on_attributes", "assertion.filter_attribute_value_assertions", "assertion.post_entity_categories",
                     "mdstore.MetadataStore.attribute_requirement/entity_categories", "attribute_converter.from_local"],
@@ -159,6 +197,12 @@ CONDITIONS = [
                 "fail_on_missing_requested off, categories+restrictions, per-SP entries that set only unrelated keys and must inherit the default's restrictions / categories); 4 SP declarations (required+optional, nothing, category R&S, two required) - "
                 "includes unsatisfiable requirements"),
 ]
+
+CONDITIONS.append(
+    Cond(name="policy_reuse", fn="policy_reuse", params=[("first_rs", "bool"), ("has_given", "bool"), ("has_mail", "bool"), ("pi", "int")],
+         pre=["0 <= pi <= 2"], partitions={"quick": [{}]}, timeout={"quick": 600, "thorough": 900}, path_timeout=60,
+         functions=["assertion.Policy.restrict/filter/get_entity_categories (two calls on one Policy object)", "assertion.post_entity_categories"],
+         bounds="one Policy object (three entity-category policy shapes), two consecutive calls for the same SP id whose metadata gains or loses the R&S category in between"))
 
 ASSUMPTIONS = [
     "responses are unsigned and unencrypted (crypto backend model is never the subject); read back at object level from the Response that create_authn_response returns",
